@@ -104,10 +104,10 @@ def dropPlanFrom (n : Nat) (p : Int) (seen : Nat) : List Int → List Bool
 
 def dropPlan (n : Nat) (p : Int) (fns : List Int) : List Bool := dropPlanFrom n p 0 fns
 
-/-- the NOPE indication sent for a suppressed burst on a version-1 link: frame and timeslot of
-the burst, no bits, noise-level RSSI −110 dBm, ToA256 0, C/I −30 cB -/
-def IsNope (fn tn : Option Int) (m : Trxd.RxMsg) : Prop :=
-  m.ver = 1 ∧ m.fn = fn ∧ m.tn = tn ∧ m.nopeInd = true ∧ m.burst = none ∧
+/-- the NOPE indication sent for a suppressed burst on a link of header version `ver` ≥ 1: frame
+and timeslot of the burst, no bits, noise-level RSSI −110 dBm, ToA256 0, C/I −30 cB -/
+def IsNope (ver : Int) (fn tn : Option Int) (m : Trxd.RxMsg) : Prop :=
+  m.ver = ver ∧ m.fn = fn ∧ m.tn = tn ∧ m.nopeInd = true ∧ m.burst = none ∧
   m.rssi = some (-110) ∧ m.toa256 = some 0 ∧ m.ci = some (-30)
 
 /-- octets of that indication (TRXD v1 header with MTS = 0x80, nothing after the header) -/
